@@ -533,37 +533,6 @@ struct Verdict {
     other_frames: u64,
 }
 
-/// Could `c` have been its id's active connection at some instant in [t1, t2]?
-fn possibly_active(conns: &[ConnRec], eff_term_lo: &[u64], c: usize, t1: u64, t2: u64) -> bool {
-    let me = &conns[c];
-    let lo = t1.max(me.rig.reg_call);
-    let hi = t2.min(me.rig.conn.dropped_at().unwrap_or(u64::MAX));
-    if lo > hi {
-        return false;
-    }
-    // intervals during which a newer connection of the same id is certainly registered
-    let mut blocks: Vec<(u64, u64)> = Vec::new(); // [a, b)
-    for (j, o) in conns.iter().enumerate() {
-        if j != c && o.id == me.id && o.rig.reg_call > me.rig.reg_call {
-            let a = o.rig.reg_ret;
-            let b = eff_term_lo[j];
-            if a < b {
-                blocks.push((a, b));
-            }
-        }
-    }
-    let covered = |t: u64| blocks.iter().any(|(a, b)| *a <= t && t < *b);
-    if !covered(lo) {
-        return true;
-    }
-    for (_, b) in &blocks {
-        if *b >= lo && *b <= hi && !covered(*b) {
-            return true;
-        }
-    }
-    false
-}
-
 fn check(log: &Log, ids: &[[u8; 32]]) -> Verdict {
     let mut v = Verdict {
         violations: vec![],
@@ -582,7 +551,7 @@ fn check(log: &Log, ids: &[[u8; 32]]) -> Verdict {
     let conns = &log.conns;
     // effective lower bound of "might have unregistered": harness cause, unless the actor
     // went away before any cause was issued (then nothing is known: its registration).
-    let mut eff: Vec<u64> = Vec::new();
+    let mut lives: Vec<rig::Life> = Vec::new();
     for c in conns {
         let d = c.rig.conn.dropped_at();
         let e = match (c.term_lo, d) {
@@ -594,7 +563,13 @@ fn check(log: &Log, ids: &[[u8; 32]]) -> Verdict {
             (Some(t), None) => t,
             (None, None) => u64::MAX,
         };
-        eff.push(e);
+        lives.push(rig::Life {
+            id: c.id,
+            reg_call: c.rig.reg_call,
+            reg_ret: c.rig.reg_ret,
+            may_leave: e,
+            gone: d.unwrap_or(u64::MAX),
+        });
     }
     for (i, c) in conns.iter().enumerate() {
         if conns.iter().enumerate().any(|(j, o)| j != i && o.id == c.id && o.rig.reg_call > c.rig.reg_call && o.rig.reg_call < c.rig.conn.dropped_at().unwrap_or(u64::MAX)) {
@@ -660,7 +635,7 @@ fn check(log: &Log, ids: &[[u8; 32]]) -> Verdict {
             continue;
         }
         // choose the first candidate whose window admits r as active connection
-        let pick = cands.iter().copied().find(|i| possibly_active(conns, &eff, r, log.sends[*i].t_send, t_d));
+        let pick = cands.iter().copied().find(|i| rig::possibly_active(&lives, r, log.sends[*i].t_send, t_d));
         let si = match pick {
             Some(i) => i,
             None => {
